@@ -567,6 +567,24 @@ class Interp:
             p = a(0)
             if not isinstance(p, Ptr) or p.idx is not None: raise EncodingError("get_unchecked on " + sx(p))
             used("slice::get_unchecked(_mut)"); return ("val", Ptr(p.root, p.path, a(1)))
+        # ---- slice iterators over a shared array: (pointer to the array, next index); the element read itself stays a visible load
+        if re.search(r"<impl \[.*\]>::iter$", c):
+            p = a(0)
+            if not isinstance(p, Ptr) or p.idx is not None: raise EncodingError("slice::iter on " + sx(p))
+            d = self.memdecl(Ptr(p.root, p.path, BV(64, 0)), "slice::iter")
+            used("slice::iter / Iter::next over a shared array (index cursor; element reads are visible loads)")
+            return ("val", Agg("SliceIter", [p, BV(64, 0)]))
+        if re.match(r"^<std::slice::Iter<.*> as IntoIterator>::into_iter$", callee, re.S): return ("val", a(0))
+        if re.match(r"^<std::slice::Iter<.*> as Iterator>::next$", callee, re.S):
+            r_ = a(0)
+            if not isinstance(r_, LRef): raise EncodingError("Iter::next needs a reference to a local iterator")
+            itv = self.project(st.frames[r_.depth].loc[r_.name], r_.proj)
+            if not (isinstance(itv, Agg) and itv.kind == "SliceIter"): raise EncodingError("Iter::next on " + sx(itv))
+            p, i_ = itv.fields
+            n_el = self.mem[p.key()]["n"]
+            more = z3.simplify(z3.ULT(i_, BV(64, n_el)))
+            self.write_local(st, r_.depth, r_.name, r_.proj, Agg("SliceIter", [p, z3.simplify(z3.If(more, i_ + 1, i_))]))
+            return ("fork", [(more, ("val", opt_some(Ptr(p.root, p.path, i_)))), (z3.Not(more), ("val", opt_none()))])
         if re.search(r"<impl \*(const|mut) .*>::offset_from$", c):
             p, q = a(0), a(1)
             if not (isinstance(p, Ptr) and isinstance(q, Ptr) and p.key() == q.key() and p.idx is not None and q.idx is not None):
@@ -789,7 +807,13 @@ class Interp:
                     pl = self.eval_place(st, parse_place(m.group(1)))
                     v = None
                     if pl[0] == "local" and pl[2] in st.frames[pl[1]].loc: v = self.project(st.frames[pl[1]].loc[pl[2]], pl[3])
-                    elif pl[0] == "mem": raise EncodingError("drop of a shared-memory place: " + line)
+                    elif pl[0] == "mem":
+                        # dropping the old content of a shared cell before it is overwritten: scalars and abstract wakers have no drop effect
+                        d_ = self.mem.get(pl[1].key())
+                        if d_ is not None and (d_.get("codec") == "opt_waker" or (d_.get("codec") is None and d_["kind"] in ("plain", "array", "atomic"))):
+                            self.intrinsics_used.add("drop of a shared scalar / Option<Waker> cell: no effect (abstract waker)")
+                            fr.bb, fr.i = m.group(2), 0; return "continue"
+                        raise EncodingError("drop of a shared-memory place: " + line)
                     r = self.drop_value(st, v)
                     if r[0] != "val": raise EncodingError("drop with effects: " + line)
                     fr.bb, fr.i = m.group(2), 0; return "continue"
